@@ -50,6 +50,25 @@ ScalarPost(name, c, c2, a, W2) ==             \* W2 = 2^64 (machine word) for di
     [] name = "mulAdd10WWW" -> Lt(c2, KB) /\ Add(Mul(c, KB), c2) = Add(Mul(a.y, a.r), a.w)                \* hi*B + lo = x*y + c
     [] OTHER -> FALSE
 
+(***************************************************************************)
+(* Division by 10^k through multiplication (the tables behind shl10VU /   *)
+(* shr10VU and nlz10): q = ((n >> pre) * m) >> (64 + post).               *)
+(* Granlund & Montgomery, "Division by invariant integers using           *)
+(* multiplication", Theorem 4.2: with d = 2^pre * d', L = 64 + post and   *)
+(* N' = 64 - pre, if  2^L <= m*d' <= 2^L + 2^(L-N')  then                  *)
+(* floor(m*n' / 2^L) = floor(n'/d') for EVERY 0 <= n' < 2^N', hence        *)
+(* q = floor(n/d) for every 64-bit n.  A statement about all 2^64 inputs,  *)
+(* decided by exact arithmetic on the table row.                           *)
+(***************************************************************************)
+MagicRowOK(d, m, pre, post, k) ==
+  LET P2 == Pow(Two, pre)
+      dp == Div(d, P2)
+      L  == 64 + post
+      md == Mul(m, dp)
+  IN /\ d = Pow10(k)                                   \* row k divides by 10^k
+     /\ Mod(d, P2) = Zero /\ Lt(m, Pow(Two, 64))
+     /\ Le(Pow(Two, L), md) /\ Le(md, Add(Pow(Two, L), Pow(Two, L - (64 - pre))))
+
 (* preconditions (what the library guarantees when it calls the kernel) *)
 KernelPre(name, pre, a) ==
   /\ \A i \in 1..Len(pre) : Lt(pre[i], KB)
